@@ -63,8 +63,8 @@ pub fn make_bases<G: Cv>(env: &Env<G>, seed: u64, tier: Tier) -> Vec<Base<G>> {
     base_programs(tier)
         .into_iter()
         .filter_map(|prog| {
-            let pr = program::prove::<G>(&prog, &env.pc, &env.bp, seed, "c04", Dev::None);
-            let bytes = pr.proof.ok()?;
+            let pr = program::try_prove::<G>(&prog, &env.pc, &env.bp, seed, "c04", Dev::None).ok()?;
+            let bytes = pr.proof.clone().ok()?;
             let k = Parts::<G>::parse(&bytes)?.l.len();
             let proof = R1CSProof::<G>::from_bytes(&bytes).unwrap();
             let ok = program::verify::<G>(&prog, &env.pc, &env.bp, seed, Dev::None, &pr.commitments, &proof, program::LABEL).result.is_ok();
